@@ -33,6 +33,9 @@ PROP = {
             "timeout": 1500,
         }],
         "keys": ["wswrite.*", "wshandshake.stale-session"],
+        # blocking writes on a transport that fails once and works again (outside the model: the wire monitor is stated for a
+        # transport that accepts every write)
+        "direct": [{"component": "wswrite", "timeout": 600}],
         "rule": "scripts = a client websocket.Stream attached (hook VerifAttach) to the in-memory transport; max from {0,1,5,125,126,127,200,300,"
                 "1000,4096,65535,65536,66000}; operations Write/WriteFrame/Flush/Close or their Async variants (one mode per script: the stream "
                 "allows one write in flight) with payload sizes 0,1,125,126,127,300,65535,65536,max-1,max,max+1 and random small ones, caller-built "
